@@ -195,7 +195,7 @@ def run_conc(harness, name, tier, seed, outdir, goroutines=8, limit=20000, per=6
     return sums
 
 
-def reobserve_conc(harness, spec, tier, seed, scratch, code, module='Trace', attempts=3):
+def reobserve_conc(harness, spec, tier, seed, scratch, code, module='Trace', attempts=3, prefixes=()):
     """A failed demand seen only when calls run concurrently cannot be re-executed call by call: the
     concurrent run is repeated in fresh processes until the same demand fails again."""
     for k in range(attempts):
@@ -203,13 +203,19 @@ def reobserve_conc(harness, spec, tier, seed, scratch, code, module='Trace', att
         run_conc(harness, spec['name'], tier, seed + k, d, goroutines=spec.get('goroutines', 8),
                  limit=spec.get('limit', 20000), per=spec.get('per', 60000))
         files = sorted(glob.glob(os.path.join(d, '*.ndjson')))
+        other = None
         for r in validate_all(files, scratch, module=module):
             for (idx, c) in r['bads']:
                 if c == code:
                     ev = read_event(r['path'], idx)
                     shutil.rmtree(d, ignore_errors=True)
                     return ev, k + 1
+                if other is None and prefixes and any(c.startswith(x) for x in prefixes):
+                    other = (read_event(r['path'], idx), c)
         shutil.rmtree(d, ignore_errors=True)
+        if other:
+            # interference between goroutines shows as different failed demands from run to run
+            return dict(other[0], **{'_other_demand': other[1]}), k + 1
     return None, attempts
 
 
